@@ -47,10 +47,8 @@ func runC03(e *Engine, g G, o RunOpt) RunInfo {
 	if o.Avoiding("session-error-accepted") && sc.Server.SessionRep != SessionOK && sc.Server.SessionRep != SessionClose {
 		sc.Server.SessionRep = SessionClose
 	}
-	if sc.Server.Bind == BindEmptyResult {
-		// a result without payload: the statement leaves its status open
-		sc.Server.Bind = BindError
-	}
+	// (a bind result without the <bind/> payload and its JID has not completed the step: RFC 6120
+	// 7.7 - the model treats it like any other reply that is not a confirmation)
 	sc.Pre = sc.Client.Insecure && sc.Client.SM && g.Pct("pre", 40)
 	// ... or a previous session without stream management
 	sc.PrePlain = !sc.Pre && sc.Client.Insecure && g.Pct("pre-plain", 20)
